@@ -84,7 +84,10 @@ void GammaDiscreteDistribution::fireParameterChanged(const ParameterList& parame
 
 double GammaDiscreteDistribution::qProb(double x) const
 {
-  return offset_ + RandomTools::qGamma(x, alpha_, beta_);
+  double q = RandomTools::qGamma(x, alpha_, beta_);
+  if (q < 0)
+    return q; // error signal, not to be shifted
+  return offset_ + q;
 }
 
 
